@@ -189,6 +189,89 @@ def run_random(chk, only=None):
     chk.cov["random_max_vertices"] = max(o["nv"] for o in obs)
 
 
+CLIP_CFG = """SPECIFICATION Spec
+CONSTANT K = %d
+CONSTANT Emit = TRUE
+INVARIANT ClipOK
+CHECK_DEADLOCK FALSE
+"""
+CLIP_REPORT_ONLY = ("desc",)
+
+
+def clip_replay(chk, vectors):
+    text = "\n".join(json.dumps(v) for v in vectors) + "\n"
+    out = chk.vh(["c04-clip"], stdin=text, timeout=1800)
+    obs = [json.loads(x) for x in out.splitlines() if x.strip()]
+    if len(obs) != len(vectors):
+        raise vlib.Inconclusive("c04-clip returned %d observations for %d vectors" % (len(obs), len(vectors)))
+    return obs
+
+
+def clip_judge(chk, vectors, obs):
+    """-> [(vector, observation, why)] of rejected real observations"""
+    stripped = [{k: v for k, v in o.items() if k not in CLIP_REPORT_ONLY} for o in obs]
+    back = {id(t): (v, o) for t, v, o in zip(stripped, vectors, obs)}
+    bad = chk.validate("ClipTrace", stripped, timeout=1800, chunk_size=400)
+    res = []
+    for e, why in bad:
+        if why.startswith("machinery:"):
+            raise vlib.Inconclusive("ClipTrace reports a machinery problem: " + why)
+        v, o = back[id(e)]
+        res.append((v, o, why))
+    return res
+
+
+def clip_report(chk, v, o, why):
+    cls = why.split(":")[0]
+    var = int(re.findall(r"-?\d+", why.split("|")[0])[-1])
+    i = o["var"].index(var)
+    box = o["desc"][i]
+    chk.violation("clip:%s:k=%d:p=%s:q=%s:variant=%d" % (cls, v["k"], v["p"], v["q"], var),
+                  "REAL Box2.lineIntersect / quad0..3, node box and segment (box min, box max, p, q) = %s [lattice k=%d p=%s q=%s, "
+                  "variant %d%s]: %s; children with a piece %s (specification %s), longest lost part %d, end point error %d, "
+                  "stray %d (units 1e-3 snapping distance)" % (
+                      box, v["k"], v["p"], v["q"], var, "" if o["exact"][i] else ", end point moved / non-dyadic placement",
+                      why, format(o["pat"][i], "04b"), format(v["pat"], "04b"), o["gap"][i], o["perr"][i], o["stray"][i]),
+                  dict(kind="clip", vector=v))
+
+
+def run_clip(chk, ks, only=None):
+    if only is not None:
+        vectors = [only]
+    else:
+        vectors = []
+        for k in ks:
+            res = chk.tlc("ClipM", cfg_text=CLIP_CFG % k, timeout=1800, name="ClipM K=%d" % k)
+            if res.violated:
+                raise vlib.Inconclusive("ClipM: the model's own partition property fails (%s)\n%s" % (res.violated, res.out[-1500:]))
+            vs = res.printed_json("VEC")
+            if not vs:
+                raise vlib.Inconclusive("ClipM K=%d exported nothing" % k)
+            vectors += vs
+    obs = clip_replay(chk, vectors)
+    chk.traces += len(obs)
+    bad = clip_judge(chk, vectors, obs)
+    for v, o, why in bad[:MAX_CLIP_CONFIRM]:
+        o2 = clip_replay(chk, [v])
+        again = clip_judge(chk, [v], o2)
+        if not again:
+            raise vlib.Inconclusive("rejected clipper observation did not reproduce: %s" % v)
+        clip_report(chk, v, o2[0], again[0][2])
+    chk.cov["clipper_segments"] = len(vectors)
+    chk.cov["clipper_calls_judged"] = 4 * sum(len(o["var"]) for o in obs)
+    chk.cov["clipper_segments_rejected"] = len(bad)
+    chk.cov["clipper_rule"] = ("ClipM.tla: every lattice segment of a node box [0,2K]^2; TLC checks that the four children "
+                               "partition each owned segment (exact rationals) and exports the expected pieces; the real "
+                               "Box2.lineIntersect / quad0..3 get the same box and segment at 4 dyadic and 2 non-dyadic "
+                               "placements and with an end point moved by 0.3 .. 10 snapping distances; ClipTrace.tla judges "
+                               "children, end points, lost parts and stray pieces")
+    if obs:
+        chk.sample(dict(clip={k: obs[0][k] for k in ("k", "p", "q", "pat", "gap")}))
+
+
+MAX_CLIP_CONFIRM = 6
+
+
 def run(chk, replay_rec):
     chk.build()
     chk.assumptions += [
@@ -203,7 +286,9 @@ def run(chk, replay_rec):
     ]
     if replay_rec:
         r = replay_rec["replay"]
-        if r["kind"] == "vector":
+        if r["kind"] == "clip":
+            run_clip(chk, [], only=r["vector"])
+        elif r["kind"] == "vector":
             obs = replay(chk, [r["vector"]])
             chk.traces += 1
             confirm(chk, judge(chk, obs, 50), lambda e: replay(chk, [vec_of(e)])[0])
@@ -219,6 +304,7 @@ def run(chk, replay_rec):
         run_lattice(chk, 4, 5, "free")
         run_lattice(chk, 5, 4, "free")
         run_lattice(chk, 5, 12, "unit")
+    run_clip(chk, [2, 3] if chk.tier == "quick" else [2, 3, 4, 5])
     run_random(chk)
     chk.cov["rule"] = ("TLC builds every simple lattice polygon of the stated bounds and its exact distances; each is "
                        "evaluated by the real Polygon2D / Mesh2D / Mesh2DSlow at every half-lattice point of the enlarged "
